@@ -496,7 +496,13 @@ def c05_v1(ctx, R):
         n += len(prefixes)
     # (iv) absent final token -> MissingNewLine
     for o in outs:
-        if has(5) in o['pc'] and T.bnot(has(6)) in o['pc'] and err_variant(o) not in ROLE:
+        # (only outcomes past the protocol dispatch: a parser that tokenises up front knows the token count before it looks at the keywords;
+        #  for UNKNOWN the line feed token may sit anywhere, so the rule applies when no token was found to be the line feed)
+        fixed_layout = any(T.eq(('bytes', kw), tk(1)) in o['pc'] for kw in (tables.V1_TCP4, tables.V1_TCP6))
+        unknown = T.eq(('bytes', tables.V1_UNKNOWN), tk(1)) in o['pc']
+        lf_found = any(T.eq(('bytes', b'\n'), tk(j)) in o['pc'] for j in range(2, 7))
+        dispatched = fixed_layout or (unknown and not lf_found)
+        if has(5) in o['pc'] and T.bnot(has(6)) in o['pc'] and err_variant(o) is not None and err_variant(o) not in ROLE and dispatched:
             R.inst('C05.V1', 'absent-final-token-is-MissingNewLine', match(o['ret'], perr('MissingNewLine')) or err_variant(o) in MISSING, expected=perr('MissingNewLine'), found=o['ret'], entry=fp)
             n += 1
     R.floor('v1 streaming instances', n, 30)
